@@ -48,23 +48,18 @@ Definition traced (k : pykey) : Prop := exists n, k = Some n /\ n <> 0.
 Definition only (k : pykey) (ws : list label) : list label :=
   filter (fun l => key_eqb (actor_of l) k) ws.
 
-(** "every write that contains a newline ends with it" (true of what `print`
-    does with newline-free arguments: it writes each argument, the separator
-    and the terminator separately) *)
-Definition nl_only_at_end (ws : list label) : Prop :=
-  forall a s, In (Write a s) ws -> has_nl s = true -> ends_nl s = true.
+(** what follows the longest prefix ending in NL *)
+Definition after_last_nl (t : text) : text := skipn (length (upto_last_nl t)) t.
 
-(** the same, required of the writes of `k` only *)
-Definition nl_only_at_end_for (k : pykey) (ws : list label) : Prop :=
-  forall s, In (Write k s) ws -> has_nl s = true -> ends_nl s = true.
-
-(** what `k` has written since its last write that ended in NL, and the
-    pieces completed so far -- by one pass over the history *)
+(** the pieces completed so far for `k` and what `k` has written after the
+    last reported newline -- by one pass over the history: a write that
+    contains NL completes a piece that goes up to the last NL written *)
 Definition hstep (k : pykey) (acc : list text * text) (l : label) : list text * text :=
   match l with
   | Write a s =>
       if key_eqb a k then
-        if ends_nl s then (fst acc ++ [snd acc ++ s], []) else (fst acc, snd acc ++ s)
+        let t := snd acc ++ s in
+        if has_nl s then (fst acc ++ [upto_last_nl t], after_last_nl t) else (fst acc, t)
       else acc
   end.
 
